@@ -676,14 +676,12 @@ pub fn partial_liquidation_reply(
     // long: unrealizedPnl = positionNotional - openNotional => openNotional = positionNotional - unrealizedPnl
     // short: unrealizedPnl = openNotional - positionNotional => openNotional = positionNotional + unrealizedPnl
     // positionNotional = oldPositionNotional - exchangedQuoteAssetAmount
-    position.notional = match position.size {
-        Integer {
-            negative: false, ..
-        } => position
+    position.notional = match position.direction {
+        Direction::AddToAmm => position
             .notional
             .checked_sub(swap.open_notional)?
             .checked_sub(realized_pnl.value)?,
-        Integer { negative: true, .. } => realized_pnl
+        Direction::RemoveFromAmm => realized_pnl
             .value
             .checked_add(position.notional)?
             .checked_sub(swap.open_notional)?,
